@@ -21,14 +21,14 @@ Definition pair_mem (p : N * N) (l : list (N * N)) : bool := existsb (pair_eqb N
 Definition same_set (a b : list (N * N)) : bool :=
   Nat.eqb (length a) (length b) && forallb (fun p => pair_mem p b) a && forallb (fun p => pair_mem p a) b.
 
-Fixpoint e_check (W FN FB : N) (g : eng) (cs : list (call * eprobe)) : bool :=
+Fixpoint e_check (W FN FB IDX : N) (g : eng) (cs : list (call * eprobe)) : bool :=
   match cs with
   | [] => true
   | (c, p) :: r =>
-      let '(g', o) := e_step W FN FB g c in
+      let '(g', o) := e_step W FN FB IDX g c in
       outcome_eqb o (ep_out p) && (next_h g' =? ep_next p) && (g_wait g' =? ep_wait p)
-      && same_set (pool_keys g') (ep_pool p) && e_check W FN FB g' r
+      && same_set (pool_keys g') (ep_pool p) && e_check W FN FB IDX g' r
   end.
 
-Definition bad_ecases (W FN FB : N) (cs : list ecase) : list N :=
-  map ec_id (filter (fun c => negb (e_check W FN FB g_init (ec_calls c))) cs).
+Definition bad_ecases (W FN FB IDX : N) (cs : list ecase) : list N :=
+  map ec_id (filter (fun c => negb (e_check W FN FB IDX g_init (ec_calls c))) cs).
